@@ -2,7 +2,10 @@
     Model: Model/C13_Coanc.v (mirrors the four from_gmat estimators and the DenseCoancestryMatrix views/summaries).
     A genotype matrix is its allele-count table X (n taxa x m markers), [from_gmat c pl m X] is the call
     [c] in {molecular, VanRaden p_anc, Yang p_anc, weighted mkrwt afreq} on ploidy [pl]. *)
-From PV Require Import Lib.Common Model.C13_Coanc Proofs.C13_Coanc Proofs.C13_Optimal Proofs.C13_Phased Proofs.C13_Cert Proofs.C13_Singular.
+From Coq Require Import String.
+From Coq Require Reals Qreals.
+From PV Require Import Lib.Common Model.C13_Coanc Proofs.C13_Coanc Proofs.C13_Optimal Proofs.C13_Phased Proofs.C13_Cert Proofs.C13_Singular
+  Gen.C13_Kernel Proofs.C13_Kernel Proofs.C13_Scale.
 Local Open Scope Q_scope.
 
 (** Molecular coancestry is twice the average identity-by-state probability of alleles drawn from the two
@@ -137,6 +140,150 @@ Theorem C13_estimated_frequencies_singular : forall c pl m X G, estimated c -> r
 Proof. exact estimated_freq_singular. Qed.
 Print Assumptions C13_estimated_frequencies_singular.
 
+(** ** The kernel expressions of the CURRENT source (Gen/C13_Kernel.v is regenerated from pybrops on every run by
+    harness/translate/c13_kernel.py).  [gen_from_gmat] (Proofs/C13_Kernel.v) assembles the four estimators from the generated
+    kernels only; it is Leibniz-equal to the hand model, so everything proved above holds of the formulas the source contains now.
+    A changed expression (a factor, a centring constant, a range test, a halving, a ploidy branch) breaks these proofs. *)
+Theorem C13_kernel_is_model : forall c pl m X, gen_from_gmat c pl m X = from_gmat c pl m X.
+Proof. exact gen_from_gmat_is_model. Qed.
+Print Assumptions C13_kernel_is_model.
+
+(** molecular coancestry, as generated ([1 + XX'/m] on the {-1,0,1} coding for ploidy 2, [(2/m)(XX' + YY')] with [Y = 1 - X] for
+    ploidy 1), is twice the mean identity-by-state probability — on an allele table and on the phased array as stored. *)
+Theorem C13_kernel_molecular_is_twice_ibs : forall (pl : Z) (m : nat) (A : list (list (list Z))) G i j,
+  (pl = 1 \/ pl = 2)%Z -> (0 < m)%nat -> alleles_ok (Z.to_nat pl) m A -> (i < length A)%nat -> (j < length A)%nat ->
+  gen_mol_from_gmat pl m (map dosage A) = ROk G ->
+  entry G i j == twice_mean_ibs (nth i A []) (nth j A []).
+Proof. exact kernel_molecular_is_twice_ibs. Qed.
+Print Assumptions C13_kernel_molecular_is_twice_ibs.
+
+Theorem C13_kernel_molecular_phased_is_twice_ibs : forall (n m : nat) (ph : list (list (list Z))) G i j,
+  (length ph = 1 \/ length ph = 2)%nat -> (0 < m)%nat -> phases_ok n m ph -> (i < n)%nat -> (j < n)%nat ->
+  gen_mol_from_gmat (Z.of_nat (length ph)) m (tacount_ph n m ph) = ROk G ->
+  entry G i j == twice_mean_ibs (nth i (alleles_of n m ph) []) (nth j (alleles_of n m ph) []).
+Proof. exact kernel_molecular_phased_is_twice_ibs. Qed.
+Print Assumptions C13_kernel_molecular_phased_is_twice_ibs.
+
+(** the generated estimators give square, symmetric, positive semidefinite matrices ... *)
+Theorem C13_kernel_square_symmetric_psd : forall c pl m X G, rows_len m X -> admissible c pl X -> gen_from_gmat c pl m X = ROk G ->
+  (length G = length X /\ rows_len (length X) G) /\ (forall i j, entry G i j == entry G j i) /\ (forall x, 0 <= qform x G).
+Proof. exact kernel_square_symmetric_psd. Qed.
+Print Assumptions C13_kernel_square_symmetric_psd.
+
+(** ... commute with taxa permutation / sub-selection / repetition for fixed reference frequencies ... *)
+Theorem C13_kernel_perm_subset_equivariant : forall c pl m X ix G, fixed_ref c -> Forall (fun i => (i < length X)%nat) ix ->
+  gen_from_gmat c pl m X = ROk G -> gen_from_gmat c pl m (select [] ix X) = ROk (select2 ix G).
+Proof. exact kernel_perm_subset_equivariant. Qed.
+Print Assumptions C13_kernel_perm_subset_equivariant.
+
+(** ... and are singular with estimated frequencies. *)
+Theorem C13_kernel_estimated_singular : forall c pl m X G, estimated c -> rows_len m X -> (pl <> 0)%Z -> X <> [] ->
+  gen_from_gmat c pl m X = ROk G -> length G = length X /\ qform (repeat 1 (length G)) G == 0.
+Proof. exact kernel_estimated_singular. Qed.
+Print Assumptions C13_kernel_estimated_singular.
+
+(** views and accessors as generated: [mat_asformat] maps the generated view kernels over the matrix; the kinship view /
+    accessor is exactly half the coancestry one, which is the matrix itself. *)
+Theorem C13_kernel_views : forall G f i j,
+  mat_asformat f G = map (map (k_view f)) G /\
+  entry (map (map k_kin_view) G) i j == (1 # 2) * entry (map (map k_coan_view) G) i j /\
+  entry (map (map k_coan_view) G) i j == entry G i j /\
+  k_kinship_acc (entry G i j) == (1 # 2) * k_coancestry_acc (entry G i j).
+Proof. exact kernel_views. Qed.
+Print Assumptions C13_kernel_views.
+
+(** every kinship-format expression of DenseCoancestryMatrix (view, accessor, max_inbreeding, min_inbreeding, max, min, mean,
+    the matrix handed to the inversion) is one half of its coancestry counterpart — once, not twice. *)
+Theorem C13_kernel_kinship_half : forall x,
+  k_kin_view x == (1 # 2) * k_coan_view x /\ k_kinship_acc x == (1 # 2) * k_coancestry_acc x /\ k_coan_view x = x /\ k_coancestry_acc x = x /\
+  k_maxinb_kin x == (1 # 2) * x /\ k_mininb_kin x == (1 # 2) * x /\ k_max_kin x == (1 # 2) * x /\ k_min_kin x == (1 # 2) * x /\
+  k_mean_kin x == (1 # 2) * x /\ k_inverse_kin_arg x == (1 # 2) * x /\ k_inverse_coan_arg x = x.
+Proof. exact kernel_kinship_half. Qed.
+Print Assumptions C13_kernel_kinship_half.
+
+(** the range checks of the reference-frequency / marker-weight arguments accept exactly [0,1] resp. [0,inf) — endpoints
+    included — in all three estimators, for scalars and arrays alike; a scalar is broadcast to one value per marker. *)
+Theorem C13_kernel_argument_boundaries : forall q,
+  k_vr_freq_scalar_bad q = negb (in01 q) /\ k_vr_freq_array_bad q = negb (in01 q) /\
+  k_yang_freq_scalar_bad q = negb (in01 q) /\ k_yang_freq_array_bad q = negb (in01 q) /\
+  k_gw_freq_scalar_bad q = negb (in01 q) /\ k_gw_freq_array_bad q = negb (in01 q) /\
+  k_gw_wt_scalar_bad q = negb (Qle_bool 0 q) /\
+  (forall z, k_vr_freq_bcast z = z /\ k_yang_freq_bcast z = z /\ k_gw_freq_bcast z = z /\ k_gw_wt_bcast z = z).
+Proof. exact kernel_argument_boundaries. Qed.
+Print Assumptions C13_kernel_argument_boundaries.
+
+(** min_inbreeding as generated ([1.0 / Ginv.sum()], halved once for kinship) is the attained minimum of x'Gx over sum(x) = 1. *)
+Theorem C13_kernel_min_inbreeding : forall c pl m X G H, rows_len m X -> admissible c pl X ->
+  gen_from_gmat c pl m X = ROk G -> inv_checked G = Some H -> 0 < sumQ (concat H) ->
+  min_inbreeding Coancestry G = Some (k_mininb (sumQr (concat H))) /\
+  min_inbreeding Kinship G = Some (k_mininb_kin (k_mininb (sumQr (concat H)))) /\
+  (forall x, length x = length G -> sumQ x == 1 -> k_mininb (sumQr (concat H)) <= qform x G) /\
+  (exists x, length x = length G /\ sumQ x == 1 /\ qform x G == k_mininb (sumQr (concat H))) /\
+  k_mininb_kin (k_mininb (sumQr (concat H))) == (1 # 2) * k_mininb (sumQr (concat H)).
+Proof. exact kernel_min_inbreeding. Qed.
+Print Assumptions C13_kernel_min_inbreeding.
+
+(** the kinship-format inverse is an inverse of exactly the matrix the source hands to numpy.linalg.inv ([0.5 * self._mat]). *)
+Theorem C13_kernel_inverse_kinship : forall G Hk, inverse_of Kinship G = Some Hk ->
+  mat_eq (mmul (map (map k_inverse_kin_arg) G) Hk) (ident (length G)).
+Proof. exact kernel_inverse_kinship. Qed.
+Print Assumptions C13_kernel_inverse_kinship.
+
+(** is_positive_semidefinite as generated: the threshold is max(0, eigvaltol), an eigenvalue passes iff it is >= the threshold
+    (not >), and the certificates are sound for that threshold. *)
+Theorem C13_kernel_psd_threshold : forall n margin tol G ev, squareN n G -> symE G ->
+  k_psd_threshold tol == Qmax' 0 tol /\ (k_psd_ok ev (k_psd_threshold tol) = true <-> Qmax' 0 tol <= ev) /\
+  (psd_decided margin tol G = Some true -> forall x, length x = n -> (k_psd_threshold tol + margin) * dotQ x x <= qform x G) /\
+  (psd_decided margin tol G = Some false -> exists i, (i < n)%nat /\ entry G i i < k_psd_threshold tol - margin).
+Proof. exact kernel_psd_threshold. Qed.
+Print Assumptions C13_kernel_psd_threshold.
+
+(** wiring read off the source: every from_gmat hands its matrix, [gmat.taxa] (or a copy) and [gmat.taxa_grp] (or a copy) to the
+    constructor under the right keywords; every factory calls its own class with each parameter under the keyword of the same
+    name; max/min/mean/max_inbreeding use the numpy reduction of the same name (max_inbreeding: on the diagonal). *)
+Theorem C13_kernel_wiring :
+  (map fst k_labels = ["mol"; "vr"; "yang"; "gw"]%string /\ forallb (fun e => label_row_ok (snd e)) k_labels = true) /\
+  (map fst k_factories = ["mol"; "vr"; "yang"; "gw"]%string /\ forallb factory_row_ok k_factories = true) /\
+  k_reductions = [("max_inbreeding", "diagonal.max"); ("max", "max"); ("min", "min"); ("mean", "mean")]%string.
+Proof. exact kernel_wiring. Qed.
+Print Assumptions C13_kernel_wiring.
+
+(** "No from_gmat shares the label arrays of its source" is false of the current source: the VanRaden and Yang classes pass
+    [gmat.taxa] / [gmat.taxa_grp] themselves (witness: the generated table; confirmed on the implementation by the lifecycle
+    driver, known finding C13-vr-yang-share-label-arrays); it holds for the molecular and the weighted class. *)
+Theorem C13_labels_copied_refuted : map fst (filter (fun e => negb (row_copies (snd e))) k_labels) = ["vr"; "yang"]%string.
+Proof. exact labels_copied_refuted. Qed.
+Print Assumptions C13_labels_copied_refuted.
+
+Theorem C13_labels_copied_partial :
+  forallb (fun e => if (String.eqb (fst e) "mol" || String.eqb (fst e) "gw")%bool then row_copies (snd e) else true) k_labels = true.
+Proof. exact labels_copied_partial. Qed.
+Print Assumptions C13_labels_copied_partial.
+
+(** Scale covariance of the weighted estimator: multiplying every marker weight by t (any rational, any sign) multiplies every
+    entry by t — exactly, whatever the scale (the generators use t = 2^-40 .. 2^+20) — and a scalar weight s gives s times the
+    unweighted matrix. *)
+Theorem C13_weight_scale_covariant : forall pl m X w p t G G' i j,
+  gw_from_gmat pl m X (AArr w) p = ROk G -> gw_from_gmat pl m X (AArr (map (Qmult t) w)) p = ROk G' ->
+  (i < length X)%nat -> (j < length X)%nat -> entry G' i j == t * entry G i j.
+Proof. exact gw_weight_scale_covariant. Qed.
+Print Assumptions C13_weight_scale_covariant.
+
+Theorem C13_scalar_weight : forall pl m X p s G G1 i j,
+  gw_from_gmat pl m X (AScalar s) p = ROk G -> gw_from_gmat pl m X ANone p = ROk G1 ->
+  (i < length X)%nat -> (j < length X)%nat -> entry G i j == s * entry G1 i j.
+Proof. exact gw_scalar_weight. Qed.
+Print Assumptions C13_scalar_weight.
+
+(** Yang's scaling with square roots, as written in the source, equals over the reals the rational closed form of the model:
+    (z_i / sqrt v)(z_j / sqrt v) = z_i z_j / v with v = ploidy p (1-p) > 0 (the generated radicand). *)
+Theorem C13_kernel_yang_sqrt : forall ploidy p zi zj : Q, 0 < k_yang_var ploidy p ->
+  Rdefinitions.Rmult (k_yang_scaled_R (Rdefinitions.Q2R zi) (k_yang_zscale_R (Rdefinitions.Q2R ploidy) (Rdefinitions.Q2R p)))
+                     (k_yang_scaled_R (Rdefinitions.Q2R zj) (k_yang_zscale_R (Rdefinitions.Q2R ploidy) (Rdefinitions.Q2R p)))
+  = Rdefinitions.Q2R (zi * zj / k_yang_var ploidy p).
+Proof. exact yang_sqrt_is_rational_model. Qed.
+Print Assumptions C13_kernel_yang_sqrt.
+
 (** non-vacuity: concrete inputs meeting the hypotheses of the theorems above *)
 Example C13_hyps_satisfiable :
   alleles_ok 2 2 [[[0;1];[1;1]];[[0;0];[1;0]]]%Z /\
@@ -149,7 +296,11 @@ Example C13_hyps_satisfiable :
   (exists G H, mol_from_gmat 2 3 [[0;1;2];[2;2;0];[2;1;1]]%Z = ROk G /\ inv_checked G = Some H /\ 0 < sumQ (concat H)) /\
   phases_ok 2 2 [[[0;1];[1;1]];[[0;0];[1;0]]]%Z /\ estimated (CGw ANone ANone) /\
   (exists G, squareN 2 G /\ symE G /\ psd_decided (1 # 1000) (1 # 2) G = Some true) /\
-  (exists G, squareN 2 G /\ psd_decided (1 # 1000) 2 G = Some false).
+  (exists G, squareN 2 G /\ psd_decided (1 # 1000) 2 G = Some false) /\
+  (exists G, gen_from_gmat (CYang (AScalar (1 # 4))) 2 3 [[0;1;2];[2;2;0];[1;1;1]]%Z = ROk G) /\
+  0 < k_yang_var 2 (1 # 4) /\
+  (exists G G', gw_from_gmat 2 3 [[0;1;2];[2;2;0];[1;1;1]]%Z (AArr [1; 1 # 2; 0]) (AScalar (1 # 2)) = ROk G /\
+     gw_from_gmat 2 3 [[0;1;2];[2;2;0];[1;1;1]]%Z (AArr (map (Qmult (1 # 1024)) [1; 1 # 2; 0])) (AScalar (1 # 2)) = ROk G').
 Proof.
   unfold alleles_ok, phases_ok, locus_ok, is01, rows_len, dosages_ok, admissible, wt_nonneg, fixed_ref, dosages_ok, estimated.
   repeat match goal with
